@@ -278,3 +278,87 @@ def run_r8(F, rep, crate, tier="quick"):
         rep.check(ok, "C07-R8", "compile_const:entry-offset-is-padded-offset",
                   "compile_const records `%s` as the constant's offset, which is neither the align_up result `%s` nor the blob length read after padding to it and before appending the bytes: "
                   "the entry points at the padding or into the previous constant" % (offvar, padded), "CompileCtx::compile_const (%s)" % crate)
+
+
+def _write_seq_items(node):
+    """write_seq plus nested item writes `X.write_le(out)` in source order"""
+    out = []
+    for n in walk(node):
+        if n[0] == "mcall":
+            m = re.match(r"^write_%s$" % WIDTH, n[2])
+            if m and n[4]:
+                out.append((m.group(1), label(n[4][0])))
+            elif n[2] in ("write_all", "extend_from_slice") and n[4]:
+                out.append(("bytes", label(n[4][0])))
+            elif n[2] == "write_le" and n[4]:
+                out.append(("item", label(n[1])))
+    return out
+
+
+def _read_seq_items(node):
+    seq = []
+    for n in walk(node):
+        if n[0] == "let" and len(n) >= 3 and n[2] is not None and is_node(n[1]):
+            p = n[1]
+            while p[0] == "ptype":
+                p = p[1]
+            if p[0] != "pident":
+                continue
+            hit = None
+            for x in walk(n[2]):
+                if x[0] == "mcall":
+                    m = re.match(r"^read_%s$" % WIDTH, x[2])
+                    if m:
+                        hit = m.group(1)
+                        break
+                if x[0] == "call" and (path_of(x[1]) or "").endswith("::from_le"):
+                    hit = "item"
+                    break
+            if hit:
+                seq.append((hit, p[1].lstrip("_")))
+    ren = {}
+    for s in find(node, "struct"):
+        for f in s[2]:
+            v = f[1]
+            if is_node(v) and v[0] == "path" and v[1] != f[0]:
+                ren.setdefault(v[1], f[0])
+    return [(w, ren.get(l, l)) for w, l in seq]
+
+
+def run_const_fields(F, rep, crate, rule="C06-R17"):
+    """constant codecs (ConstElem::write_le / from_le, CompileConst::compile_const) agree on the order of the named fields"""
+    rep.rule(rule, "constant codecs agree field by field: for every type, the named fields ConstElem::write_le writes (rows, cols, ids, lengths ..) are read by ConstElem::from_le in the "
+                   "same order and width, and CompileConst::compile_const (the encoder the compiler actually uses) writes them in that order too")
+    W, R, Cc = {}, {}, {}
+    for it in F.syn(crate):
+        if it["k"] != "method" or not it.get("body"):
+            continue
+        tr = it.get("trait") or ""
+        key = re.sub(r"\s", "", it["self"])
+        if it["name"] == "write_le" and "ConstElem" in tr:
+            if any(len(m[2]) >= 3 for m in find(it["body"], "match")):
+                continue          # enum codecs (one layout per variant) are C06-R10/R11's
+            W[key] = _write_seq_items(it["body"])
+        elif it["name"] == "from_le" and "ConstElem" in tr:
+            R[key] = _read_seq_items(it["body"])
+        elif it["name"] == "compile_const" and "CompileConst" in tr:
+            Cc[key] = _write_seq_items(it["body"])
+    n_r = n_c = 0
+    for key, ws in sorted(W.items()):
+        named = [l for _, l in ws if l != "#" and not l.startswith("len(")]
+        for other, tag, store in ((R.get(key), "from_le", "r"), (Cc.get(key), "compile_const", "c")):
+            if not other:
+                continue
+            common = set(named) & {l for _, l in other}
+            if len(common) < 2:
+                continue
+            if store == "r":
+                n_r += 1
+            else:
+                n_c += 1
+            msg = compare([(w, l) for w, l in ws if not l.startswith("len(")], other)
+            rep.check(msg is None, rule, "%s:write_le=%s" % (key, tag) if msg is None else "%s:write_le!=%s:%s" % (key, tag, re.sub(r"\W+", "-", msg)[:50]),
+                      "%s: write_le writes %s but %s %s %s: %s - a constant of this type is rebuilt with its fields exchanged (or the compiled bytes differ from what the decoder expects)" % (
+                          key, ws, tag, "reads" if store == "r" else "writes", other, msg), "%s (%s)" % (key, crate), sample={"type": key, "write_le": ws, tag: other})
+    rep.floor(rule, "write_le/from_le pairs with >= 2 shared field names", n_r, 2)
+    rep.floor(rule, "write_le/compile_const pairs with >= 2 shared field names", n_c, 1)
